@@ -23,6 +23,13 @@ def Fault.toString : Fault → String
   | .oob => "oob" | .uninit => "uninit" | .abort => "abort" | .assert => "assert"
   | .badfree => "badfree" | .nullcb => "nullcb" | .overflow => "overflow"
 
+instance instDecEqExcept {ε α : Type} [DecidableEq ε] [DecidableEq α] : DecidableEq (Except ε α) := fun a b =>
+  match a, b with
+  | .ok x, .ok y => if h : x = y then isTrue (by rw [h]) else isFalse (fun e => h (by cases e; rfl))
+  | .error x, .error y => if h : x = y then isTrue (by rw [h]) else isFalse (fun e => h (by cases e; rfl))
+  | .ok _, .error _ => isFalse (fun e => by cases e)
+  | .error _, .ok _ => isFalse (fun e => by cases e)
+
 /-! ### `<ctype.h>` in the "C" locale, guarded by `isascii` as in `include/eav/private.h` -/
 
 def isDigit (c : Nat) : Bool := decide (48 ≤ c) && decide (c ≤ 57)
